@@ -21,6 +21,10 @@ pub fn corpus(format: &str) -> Vec<Doc> {
             d("justice-gaps", b"aag 1 1 0 0 0 0 0 4 0\n2\n0\n2\n0\n1\n2\n3\n0\nj3 last\n"),
             d("fair-symbols", b"aag 1 1 0 0 0 0 0 0 2\n2\n2\n3\nf1 second\nf0 first\n"),
             d("more-bad-than-vars", b"aag 1 1 0 0 0 3\n2\n2\n3\n0\n"),
+            d("cycle-second-input", b"aag 4 2 0 1 2\n2\n4\n6\n6 2 8\n8 4 6\n"),
+            d("negated-cycle", b"aag 4 2 0 1 2\n2\n4\n7\n6 9 2\n8 7 4\n"),
+            d("duplicate-gates", b"aag 4 2 0 2 2\n2\n4\n6\n8\n6 2 4\n8 2 4\n"),
+            d("undefined-literal", b"aag 5 2 0 1 1\n2\n4\n6\n6 2 10\n"),
             d("and-then-symbols", b"aag 3 2 0 1 1\n2\n4\n6\n6 2 4\ni0 a\no0 out\nc\ncomment\n"),
             d("utf8-comment", b"aag 1 1 0 1 0\n2\n2\nc\nh\xc3\xa9llo \xe2\x9c\x93 \xf0\x9f\x98\x80\n\xc3\xa9\n"),
         ],
@@ -37,6 +41,7 @@ pub fn corpus(format: &str) -> Vec<Doc> {
             d("justice-gaps", b"aig 1 1 0 0 0 0 0 4 0\n0\n2\n0\n1\n2\n3\n0\nj3 last\n"),
             d("two-byte-delta-then-more", b"aig 102 100 0 1 2\n204\n\x02\xc6\x01\x02\x02o0 out\nc\nx\n"),
             d("constraint-symbols", b"aig 1 1 0 0 0 0 2\n2\n3\nc1 second\nc0 first\nc\ncomment\n"),
+            d("duplicate-gates", b"aig 4 2 0 2 2\n6\n8\n\x02\x02\x04\x02"),
             d("utf8-comment", b"aig 1 1 0 1 0\n2\nc\nh\xc3\xa9llo \xe2\x9c\x93 \xf0\x9f\x98\x80\n\xc3\xa9\n"),
         ],
         _ => vec![],
